@@ -209,6 +209,32 @@ def rate_converter(ctx):
                     ob4.instance("%s %s" % (tag, nm), key(src))
                     if not okv:
                         ob4.refute("rd-valid:%s" % tag, "%s: rddata_valid is %s, expected Replicate(valid[read_delay], ratio)" % (tag, key(src)), l.loc)
+        # completeness of the read path: every slow phase k takes rddata AND rddata_valid from the deserializer of PHY phase k // ratio
+        src_of = {}
+        for l in v.leaves:
+            if l.kind != "assign" or l.inst != "" or l.target is None:
+                continue
+            tgts = list(l.target.args) if isinstance(l.target, Op) and l.target.op == "Cat" else [l.target]
+            for tg in tgts:
+                pk = phase_idx(key(tg))
+                if pk is None or pk[1] not in ("rddata", "rddata_valid"):
+                    continue
+                srcs = set()
+                for t_ in subterms(l.value):
+                    for o in dess:
+                        if o.kwargs.get("o") is t_:
+                            mo_ = re.match(r"^phy_dfi\.p(\d+)\.(\w+)$", key(o.kwargs.get("i")))
+                            if mo_:
+                                srcs.add((int(mo_.group(1)), mo_.group(2)))
+                src_of.setdefault(pk, set()).update(srcs)
+        for k_ in range(ratio * nphy):
+            for nm_ in ("rddata", "rddata_valid"):
+                got_ = src_of.get((k_, nm_))
+                want_ = {(k_ // ratio, nm_)}
+                if got_ != want_:
+                    ob2.refute("rd-source:%s:%s:p%d" % (tag, nm_, k_), "%s: slow phase %d takes %s from %s, expected from the deserializer of PHY phase %d's %s: a phase "
+                               "reports another phase's read-valid (or none)" % (tag, k_, nm_, sorted(got_) if got_ else "nothing", k_ // ratio, nm_), None)
+        ob2.instance("%s read sources" % tag, {"%s.p%d" % (nm_, k_): sorted(x) for (k_, nm_), x in sorted(src_of.items())})
     m = ctx.repo.module(DFI)
     cn = m.classes.get("DFIRateConverter")
     asserts = [ast.unparse(n.test) for n in ast.walk(cn) if isinstance(n, ast.Assert)] if cn else []
